@@ -132,6 +132,42 @@ pub fn check_map(what: &str, ranges: &[(u64, u64, bool)], data: &[u8]) -> Option
     None
 }
 
+/// the probe's output for one file when hole seeking may be refused: an error is fine, a map that hides data is not
+pub fn judge_refused_seek(_w: &Worker, scen: &Scenario, ex: &Exec) -> Judgement {
+    let mut v = vec![];
+    let data = scen.tree.iter().find(|e| e.path == "f").and_then(|e| e.content()).map(|c| c.bytes()).unwrap_or_default();
+    let out = String::from_utf8_lossy(&ex.res.stdout).to_string();
+    let mut failed = false;
+    let mut segs: Option<String> = None;
+    for l in out.lines() {
+        let (k, val) = l.split_once(' ').unwrap_or((l, ""));
+        match k {
+            "segments" if val.starts_with("error") => failed = true,
+            "segments" => segs = Some(val.to_string()),
+            "segments-stuck" => v.push("next_sparse_segments does not advance".to_string()),
+            _ => {}
+        }
+    }
+    if ex.res.outcome.is_hang() {
+        v.push(format!("the probe does not terminate: {}", ex.res.outcome.short()));
+    }
+    let mut nontrivial = false;
+    if !failed {
+        if let Some(sv) = segs {
+            match parse_ranges(&sv) {
+                Ok(r) => {
+                    nontrivial = true;
+                    if let Some(msg) = check_map("segments", &r, &data) {
+                        v.push(msg);
+                    }
+                }
+                Err(e) => v.push(format!("cannot parse the segment list: {}", e)),
+            }
+        }
+    }
+    simple_judge(v, ex, nontrivial)
+}
+
 #[derive(Serialize, Deserialize, Clone)]
 struct FileJob {
     name: String,
@@ -401,12 +437,42 @@ pub fn run(ctx: &Ctx) -> Report {
             }
         }
     }
+    // the segment search when the file system refuses a hole-seeking call: the walk may fail, it may not report
+    // the rest of the file as a hole. The probe runs under the supervisor here (one refused lseek per execution).
+    {
+        use crate::explore::Judge;
+        use crate::scen::{Entry, Kind};
+        use crate::sup::{Action, Fault};
+        let jf: Judge = &judge_refused_seek;
+        let mut jobs = vec![];
+        for units in c01::all_layouts(if q { 3 } else { 5 }) {
+            for tail in [0u64, 5] {
+                let name: String = units.iter().map(|&b| if b { 'D' } else { 'H' }).collect();
+                let c = Content::Layout { unit: 4096, units: units.clone(), tail, seed: 23 };
+                let mut s = Scenario::new(&format!("refused-seek-{}+{}", name, tail), vec![Entry::new("f", Kind::File(c))], &["extents", "f", "out"]);
+                s.prog = crate::scen::Prog::ApiProbe;
+                let s = std::sync::Arc::new(s);
+                jobs.push((s.clone(), RunSpec::base(Policy::P0), 0usize));
+                for call in ["lseek:DATA", "lseek:HOLE"] {
+                    for nth in [None, Some(1), Some(2), Some(3), Some(4)] {
+                        for en in [libc::EINVAL, libc::EIO] {
+                            let mut sp = RunSpec::base(Policy::P0);
+                            sp.faults.push(Fault { call: call.into(), thread: None, nth, path_contains: None, action: Action::Errno(en) });
+                            jobs.push((s.clone(), sp, 0usize));
+                        }
+                    }
+                }
+            }
+        }
+        let st = crate::explore::explore(&ctx.pool, jobs, jf);
+        rep.part("segment search with one (or every) SEEK_DATA / SEEK_HOLE call refused (EINVAL, EIO), under the supervisor", st, json!({}));
+    }
     rep.extra.insert("inprocess_evaluations".into(), json!(evals));
     rep.extra.insert("inprocess_nontrivial".into(), json!(nontrivial));
     rep.extra.insert("samples".into(), json!(samples));
     rep.extra.insert("merge_universe".into(), json!(u));
     rep.extra.insert("real_files".into(), json!(njobs));
     rep.extra.insert("fiemap_substitution".into(), json!("not built: FIEMAP page shapes the real file system does not produce on demand (exactly 32 mapped without LAST, short page without LAST) are not enumerated; the 31/32/33/64/65 extent files cover the page boundaries the kernel does produce"));
-    rep.assumptions = vec!["libfs is called through apiprobe (path dependency on /repo/libfs), outside the supervisor: these are sequential pure functions / read-only queries".into()];
+    rep.assumptions = vec!["libfs is called through apiprobe (path dependency on /repo/libfs); outside the supervisor (sequential pure functions / read-only queries) except in the refused-seek part".into()];
     rep
 }
